@@ -14,6 +14,8 @@ R01.6 TokenStream::all_input_consumed is true only for an empty buffer, a buffer
       first significant token is EOI.
 R01.4 check_and_transform_ll: left recursion is tested before left factoring (gate, see C11) and left_factor is
       applied to the checked grammar on the success path.
+R01.7 = all C07 rules re-evaluated (transition order contract, merge keys, k of a union is the maximum, k carried through
+      every conversion): the runtime reads exactly k tokens, an understated k makes the parser reject sentences.
 Language equality itself (grammars x inputs) is NOT decided.
 """
 from .. import cfg
@@ -298,3 +300,7 @@ def check(ctx):
     ctx.check(okv, "R01.4", "check_and_transform_ll|ok-is-left-factored-argument",
               "the Ok value is left_factor(cfg) of the checked grammar", "check_and_transform_ll does not return "
               "left_factor applied to the checked grammar", where(t_ll))
+    # ---------------------------------------------------------------- R01.7 = C07's rules (added after seed C01-b)
+    # the runtime reads exactly k look-ahead tokens: an automaton whose k is smaller than its depth rejects sentences
+    from . import c07
+    c07.check(ctx)
